@@ -33,7 +33,7 @@ ASSUMPTIONS = ["well-formed parameters: message length >= 1 at every offset, has
                "generation and correction see the same file size (the recorded size is the actual size), as in C01/C03"]
 RULE = ("sweep over file sizes 0..N (quick N=1500 thinned, thorough N=20000 thinned + all sizes 0..1500), header sizes {1,7,64,1024}, "
         "rate triples on a grid (increasing/decreasing/equal, ties of the rounding rule such as rate 0.5 with odd max_block_size), "
-        "max_block_size 2..255, hash lengths {32,8,4}; plus exhaustive (max_block_size 2..255) x (62 rates) comparison of the rate formula; "
+        "max_block_size 2..255, hash lengths {32,8,4}; directed sizes where a block starts exactly where max_block/(1+2*rate) is a half-integer (computed in exact rational arithmetic); plus exhaustive (max_block_size 2..255) x (62 rates) comparison of the rate formula; "
         "non-trivial = file of >= 2 blocks; distinct = distinct request")
 
 RATES = [0.01, 0.05, 0.1, 0.15, 0.2, 0.25, 0.3, 0.4, 0.5, 0.75, 1.0, 1.5, 2.0]
@@ -247,6 +247,67 @@ def run(oc, tier, seed, model_available, escalate):
             if nlay % 4000 == 1:
                 oc.sample({"request": lines[-1][:200], "impl_reply": impl[-1][:200]})
     oc.count("whole: layouts", nlay)
+
+    # ---- 2b. directed: file sizes for which some block starts exactly where the ideal message length max_block/(1+2*rate) is a
+    # half-integer (the interpolated rate is a rational function of offset and size: those (size, offset) pairs are computed exactly).
+    # There the rounding of the last floating-point bit decides the message length, so generation and correction agree only if they
+    # evaluate the SAME expression - any algebraically equivalent rewrite of one side (hoisted slope, reordered products) shows here
+    from fractions import Fraction
+    ncrit = nhit = 0
+    crit_budget = 500 if tier == "quick" else 8000
+    pairs = [("0.3", "0.2"), ("0.2", "0.1"), ("0.5", "0.1"), ("0.3", "0.1"), ("0.4", "1.0"), ("0.1", "0.3"), ("0.25", "0.05"), ("0.75", "0.25")]
+    rng.shuffle(pairs)
+    for (a_, b_) in pairs * (1 if tier == "quick" else 3):
+        mbs, hdr, hl = rng.choice([(255, 1024, 32), (255, 1024, 32), (255, 64, 8), (101, 1024, 4), (50, 7, 32)])
+        r2, r3 = Fraction(a_), Fraction(b_)
+        rates = [rng.choice([0.3, 0.5, float(a_)]), float(a_), float(b_)]
+        if not wf_whole(mbs, hdr, 0, rates, hl):
+            continue
+        cands = []
+        for m in range(1, mbs):
+            r = (Fraction(mbs) / Fraction(2 * m + 1, 2) - 1) / 2
+            if not (min(r2, r3) < r < max(r2, r3)):
+                continue
+            q = (r - r2) / (r3 - r2)
+            for j in range(1, (9000 - hdr) // q.denominator + 1):
+                cands.append((hdr + q.denominator * j, hdr + q.numerator * j))
+        rng.shuffle(cands)
+
+        def starts(size):
+            # quick prediction of the block starts (the published rule in plain floating point; only used to pick candidates - the
+            # real loops decide)
+            out, cur = set(), 0
+            while cur < size:
+                out.add(cur)
+                rate = rates[0] if cur < hdr else rates[1] + (float(cur - hdr) / float(size - hdr)) * (rates[2] - rates[1])
+                k = int(round(mbs / (1 + 2 * rate)))
+                if k < 1:
+                    break
+                cur += k
+            return out
+        picked = 0
+        for (size, cstart) in cands[:(6000 if tier == "quick" else 60000)]:
+            ncrit += 1
+            if cstart not in starts(size):
+                continue            # no block is predicted to start at the critical offset for this size
+            if picked >= max(8, crit_budget // (10 * len(pairs))):
+                break
+            picked += 1
+            content = bytes(size)
+            bl, track = gen_whole(content, mbs, hdr, rates, hl)
+            if not any(b[0] == cstart for b in bl):
+                continue
+            nhit += 1
+            asm = asm_whole(content, track, mbs, hdr, rates, hl)
+            oc.oracle_cases += 1
+            for e in oracle_whole(content, mbs, hdr, rates, hl, bl, track, asm):
+                oc.violations.append({"input": {"tool": "whole", "size": size, "max_block_size": mbs, "header_size": hdr,
+                                                "rates": rates, "hash_len": hl, "critical_block_start": cstart}, "what": e,
+                                      "impl": {"generated": show_blocks(bl)[:400], "read_back": show_blocks([a[:3] for a in asm])[:400]}})
+            add("layoutw %d %d %d %d %d %d" % (mbs, hdr, size, fbits(rates[0]), fbits(rates[1]), fbits(rates[2])), show_blocks(bl))
+            oc.distinct.add(lines[-1])
+    oc.count("directed: candidate sizes for an exact half-integer message length", ncrit)
+    oc.count("directed: sizes with a block starting exactly at a half-integer message length", nhit)
 
     # ---- 3. header tool
     nh = 0
